@@ -71,6 +71,8 @@ type PipeEnd struct {
 	rngMu  sync.Mutex
 	seg    Segmenter
 	name   string
+	// WritePause makes every Write of this end take that long (a slow link).
+	WritePause time.Duration
 }
 
 func (p *PipeEnd) Read(b []byte) (int, error) {
@@ -129,6 +131,11 @@ func (p *PipeEnd) Write(b []byte) (int, error) {
 	h.buf = append(h.buf, b...)
 	h.written += int64(len(b))
 	h.cond.Broadcast()
+	if p.WritePause > 0 {
+		// a slow link: the call returns only after a pause (the bytes are already on their way),
+		// so that other goroutines writing to the same end can get in between two writes of one caller
+		defer time.Sleep(p.WritePause)
+	}
 	return len(b), nil
 }
 
@@ -143,6 +150,16 @@ func (p *PipeEnd) Close() error {
 	p.rd.rclosed = true
 	p.rd.cond.Broadcast()
 	p.rd.mu.Unlock()
+	return nil
+}
+
+// CloseWrite closes only the outgoing direction: the peer drains what was written and then sees
+// EOF, while this end can still read what the peer writes (like a TCP half-close).
+func (p *PipeEnd) CloseWrite() error {
+	p.wr.mu.Lock()
+	p.wr.wclosed = true
+	p.wr.cond.Broadcast()
+	p.wr.mu.Unlock()
 	return nil
 }
 
